@@ -219,10 +219,12 @@ def fn_apply(name, arg):
 class VN:
     """normaliser for expressions inside one function; sequential environment of locals"""
 
-    def __init__(self, prog=None, func=None, env=None, attr_self=True, selfname="self"):
+    def __init__(self, prog=None, func=None, env=None, attr_self=True, selfname="self", strip_broadcast=False, flags=None):
         self.prog, self.func = prog, func
         self.env = dict(env or {})
         self.selfname = selfname
+        self.strip_broadcast = strip_broadcast   # x[None, :] / x[:, None] treated as x (elementwise congruence modulo broadcasting)
+        self.flags = dict(flags or {})           # name -> bool: boolean parameters fixed for this evaluation (IfExp / if specialisation)
 
     # ------------------------------------------------------------------ statements
     def run(self, stmts):
@@ -263,6 +265,8 @@ class VN:
             raise VNUnknown("expression statement %s" % dump(st)[:50])
         if isinstance(st, ast.Pass):
             return None
+        if isinstance(st, ast.If) and isinstance(st.test, ast.Name) and st.test.id in self.flags:
+            return self.run(st.body if self.flags[st.test.id] else st.orelse)
         raise VNUnknown("statement %s not straight-line" % type(st).__name__)
 
     def bind(self, t, v, st):
@@ -337,11 +341,17 @@ class VN:
             return Poly.atom(("and" if isinstance(e.op, ast.And) else "or",) + tuple(parts))
         if isinstance(e, ast.Subscript):
             base = self.expr(e.value)
+            if self.strip_broadcast and isinstance(e.slice, ast.Tuple) and all(
+                    (isinstance(x, ast.Constant) and x.value is None) or (isinstance(x, ast.Slice) and x.lower is None and x.upper is None and x.step is None)
+                    for x in e.slice.elts):
+                return base
             ik = self.index_key(e.slice)
             c, prim = base.split_const()
             return Poly.atom(("index", prim.key(), ik)).scale(c)
         if isinstance(e, ast.Call):
             return self.call(e)
+        if isinstance(e, ast.IfExp) and isinstance(e.test, ast.Name) and e.test.id in self.flags:
+            return self.expr(e.body if self.flags[e.test.id] else e.orelse)
         if isinstance(e, ast.IfExp):
             return Poly.atom(("ifexp", self.expr(e.test).key(), self.expr(e.body).key(), self.expr(e.orelse).key()))
         if isinstance(e, (ast.Tuple, ast.List)):
